@@ -313,10 +313,32 @@ func (f *Frame) lookupVar(name string, st *state, li *loopInfo, edgeFrom *ssa.Ba
 			}
 		}
 		if best != nil {
-			for _, ins := range best.header.Instrs {
-				if phi, ok := ins.(*ssa.Phi); ok && phi.Comment == name {
-					if v, ok := f.vals[phi]; ok {
-						return v, true
+			// ... unless the variable was assigned again in this iteration before the current point (msgs = append(msgs, x);
+			// call(...)): then the general search below finds the later value
+			reassigned := false
+			for _, b := range f.fn.Blocks {
+				if !best.body[b] || !b.Dominates(f.atBlock) {
+					continue
+				}
+				for idx, ins := range b.Instrs {
+					if b == f.atBlock && idx >= f.atIdx {
+						break
+					}
+					if d, ok := ins.(*ssa.DebugRef); ok && d.Object() != nil && d.Object().Name() == name && !d.IsAddr {
+						if _, isPhi := d.X.(*ssa.Phi); !isPhi {
+							if _, defined := f.vals[d.X]; defined {
+								reassigned = true
+							}
+						}
+					}
+				}
+			}
+			if !reassigned {
+				for _, ins := range best.header.Instrs {
+					if phi, ok := ins.(*ssa.Phi); ok && phi.Comment == name {
+						if v, ok := f.vals[phi]; ok {
+							return v, true
+						}
 					}
 				}
 			}
